@@ -41,6 +41,30 @@ func qualifierFor(pkg *types.Package) types.Qualifier {
 	}
 }
 
+// sigKey prints a signature without the names of parameters and results (renaming a parameter must not lose the
+// function its role): "(T1, T2, ...T3) (R1, R2)".
+func sigKey(t types.Type, pkg *types.Package) string {
+	sig, ok := t.(*types.Signature)
+	if !ok {
+		return ""
+	}
+	q := qualifierFor(pkg)
+	tuple := func(tp *types.Tuple, variadic bool) string {
+		var parts []string
+		for i := 0; i < tp.Len(); i++ {
+			ts := types.TypeString(tp.At(i).Type(), q)
+			if variadic && i == tp.Len()-1 {
+				if sl, isSl := tp.At(i).Type().(*types.Slice); isSl {
+					ts = "..." + types.TypeString(sl.Elem(), q)
+				}
+			}
+			parts = append(parts, ts)
+		}
+		return "(" + strings.Join(parts, ", ") + ")"
+	}
+	return tuple(sig.Params(), sig.Variadic()) + " " + tuple(sig.Results(), false)
+}
+
 // typeWithMethods: the only non-interface named type declared at package level that declares all the methods named.
 func typeWithMethods(methods ...string) func(p *Program, pkg *packages.Package) types.Object {
 	return func(p *Program, pkg *packages.Package) types.Object {
@@ -202,7 +226,7 @@ func funcBySig(sig string, calledFrom string) func(p *Program, pkg *packages.Pac
 			if !ok || fn.Exported() {
 				continue
 			}
-			if types.TypeString(fn.Type(), qualifierFor(pkg.Types)) == sig {
+			if sigKey(fn.Type(), pkg.Types) == sig {
 				cands = append(cands, fn)
 			}
 		}
@@ -283,7 +307,7 @@ func methodBySig(owner func(p *Program, pkg *packages.Package) types.Object, sig
 			if m.Exported() {
 				continue
 			}
-			if types.TypeString(m.Type(), qualifierFor(pkg.Types)) == sig {
+			if sigKey(m.Type(), pkg.Types) == sig {
 				if found != nil {
 					return nil
 				}
@@ -423,7 +447,7 @@ var (
 	aIdent        = resultTypeOf("ID")
 	aFn           = resultTypeOf("Func")
 	aRawNamer     = resultTypeOf("NewRawNamer")
-	aNewPkg       = funcBySig("func(pkg *golang.org/x/tools/go/packages.Package, u *Universe) Package", "")
+	aNewPkg       = funcBySig("(*golang.org/x/tools/go/packages.Package, *Universe) (Package)", "")
 	anchorsByRole []anchorSpec
 )
 
@@ -446,18 +470,18 @@ func init() {
 		{"funcResultsResolver", "pkg/types", "the type that has Results", aResolver},
 		{"visits", "pkg/types", "the named map[*ast.FuncType][]bool", aVisits},
 		// functions
-		{"merge", "pkg/gengo", "the unexported func(...map[string][]string) map[string][]string", funcBySig("func(tagsList ...map[string][]string) map[string][]string", "")},
+		{"merge", "pkg/gengo", "the unexported func(...map[string][]string) map[string][]string", funcBySig("(...map[string][]string) (map[string][]string)", "")},
 		{"newGenfile", "pkg/gengo", "the unexported function that returns a pointer to the file type", funcReturningPtr(aGenfile)},
-		{"commentLinesFrom", "pkg/types", "the unexported func(...*ast.CommentGroup) []string", funcBySig("func(commentGroups ...*go/ast.CommentGroup) (comments []string)", "")},
+		{"commentLinesFrom", "pkg/types", "the unexported func(...*ast.CommentGroup) []string", funcBySig("(...*go/ast.CommentGroup) ([]string)", "")},
 		{"newPkg", "pkg/types", "the unexported func(*packages.Package, *Universe) Package", aNewPkg},
-		{"splitKV", "pkg/types", "the unexported func(string) (string, string) called from ExtractCommentTags", funcBySig("func(line string) (string, string)", "ExtractCommentTags")},
+		{"splitKV", "pkg/types", "the unexported func(string) (string, string) called from ExtractCommentTags", funcBySig("(string) (string, string)", "ExtractCommentTags")},
 		// methods
-		{"createFieldSnippet", "devpkg/deepcopygen/helper", "the unexported method of StructFieldsCopy from a field to a snippet", methodBySig(exportedType("StructFieldsCopy"), "func(f *go/types.Var) github.com/octohelm/gengo/pkg/gengo/snippet.Snippet")},
-		{"generate", "devpkg/partialstruct", "the unexported method of PartialStruct over (Context, *Named, *Struct)", methodBySig(exportedType("PartialStruct"), "func(c github.com/octohelm/gengo/pkg/gengo.Context, named *go/types.Named, x *go/types.Struct) error")},
-		{"generateType", "devpkg/runtimedocgen", "the unexported method of the generator over (Context, *Named)", methodBySig(aGenType, "func(c github.com/octohelm/gengo/pkg/gengo.Context, named *go/types.Named) error")},
-		{"generateType", "devpkg/deepcopygen", "the unexported method of the generator over (Context, *Named)", methodBySig(aGenType, "func(c github.com/octohelm/gengo/pkg/gengo.Context, named *go/types.Named) error")},
-		{"priorCommentLines", "pkg/types", "the unexported method of the package record from (Pos, int) to a comment group", methodBySig(aPkgInfo, "func(pos go/token.Pos, deltaLines int) *go/ast.CommentGroup")},
-		{"visited", "pkg/types", "the unexported method of the visit marks over (*ast.FuncType, int)", methodBySig(aVisits, "func(t *go/ast.FuncType, at int) bool")},
+		{"createFieldSnippet", "devpkg/deepcopygen/helper", "the unexported method of StructFieldsCopy from a field to a snippet", methodBySig(exportedType("StructFieldsCopy"), "(*go/types.Var) (github.com/octohelm/gengo/pkg/gengo/snippet.Snippet)")},
+		{"generate", "devpkg/partialstruct", "the unexported method of PartialStruct over (Context, *Named, *Struct)", methodBySig(exportedType("PartialStruct"), "(github.com/octohelm/gengo/pkg/gengo.Context, *go/types.Named, *go/types.Struct) (error)")},
+		{"generateType", "devpkg/runtimedocgen", "the unexported method of the generator over (Context, *Named)", methodBySig(aGenType, "(github.com/octohelm/gengo/pkg/gengo.Context, *go/types.Named) (error)")},
+		{"generateType", "devpkg/deepcopygen", "the unexported method of the generator over (Context, *Named)", methodBySig(aGenType, "(github.com/octohelm/gengo/pkg/gengo.Context, *go/types.Named) (error)")},
+		{"priorCommentLines", "pkg/types", "the unexported method of the package record from (Pos, int) to a comment group", methodBySig(aPkgInfo, "(go/token.Pos, int) (*go/ast.CommentGroup)")},
+		{"visited", "pkg/types", "the unexported method of the visit marks over (*ast.FuncType, int)", methodBySig(aVisits, "(*go/ast.FuncType, int) (bool)")},
 		// fields
 		{"processed", "devpkg/deepcopygen", "the generator's map[*types.Named]bool", fieldOf(aGenType, "map[*go/types.Named]bool", 0)},
 		{"processed", "devpkg/runtimedocgen", "the generator's map[*types.Named]bool", fieldOf(aGenType, "map[*go/types.Named]bool", 0)},
@@ -485,7 +509,7 @@ func init() {
 // resultsFromAstAt and the local `p` of newPkg need the program (their descriptions go through other anchors)
 func lateAnchors(p *Program) []anchorSpec {
 	return []anchorSpec{
-		{"resultsFromAstAt", "pkg/types", "the unexported method of the resolver over (marks, int, *ast.FuncType, *ast.BlockStmt)", methodBySig(aResolver, "func(vs visits, at int, funcType *go/ast.FuncType, body *go/ast.BlockStmt) iter.Seq[Result]")},
+		{"resultsFromAstAt", "pkg/types", "the unexported method of the resolver over (marks, int, *ast.FuncType, *ast.BlockStmt)", methodBySig(aResolver, "(visits, int, *go/ast.FuncType, *go/ast.BlockStmt) (iter.Seq[Result])")},
 		{"p", "pkg/types", "the local of the record constructor defined as a literal of the package record", localOf(aNewPkg, "", definedAsLiteralOf(aPkgInfo, p))},
 	}
 }
